@@ -453,9 +453,10 @@ Definition cut_ok (s : list Z) (pc c : Q) : bool :=
   let vi := (inject_Z (lenZ s - 1) * (pc / 100))%Q in
   let j := Qfloor vi in
   let g := (vi - inject_Z j)%Q in
-  bracket s j c
-  || (qlt_bool g eps9 && (1 <=? j) && bracket s (j - 1) c)
-  || (qlt_bool (1 - eps9)%Q g && (j + 1 <=? lenZ s - 1) && bracket s (j + 1) c).
+  Qle_bool 0 pc && Qle_bool pc 100 &&                      (* np.percentile rejects anything else *)
+  (bracket s j c
+   || (qlt_bool g eps9 && (1 <=? j) && bracket s (j - 1) c)
+   || (qlt_bool (1 - eps9)%Q g && (j + 1 <=? lenZ s - 1) && bracket s (j + 1) c)).
 Fixpoint forallb2 {A B} (f : A -> B -> bool) (l : list A) (m : list B) : bool :=
   match l, m with
   | [], [] => true
